@@ -150,6 +150,15 @@ def check(ctx: Ctx) -> None:  # noqa: C901, PLR0915
     ids = [s for s in walk_no_nested(init.node) if isinstance(s, (ast.Assign, ast.AugAssign)) and "_counter" in norm(s)]
     ok = len(ids) == 2 and norm(ids[0]) == "self._id = _LazyFunction._counter" and norm(ids[1]) == "_LazyFunction._counter += 1"
     ctx.add("5-dag", init, ids[0] if ids else init.node, ok, "ids are unique and increase with construction order (edges go from older to newer nodes: acyclic)" if ok else "node ids are no longer assigned from an increasing counter", key="ids")
+    writers = []
+    for fn_ in P.functions.values():
+        for s_ in walk_no_nested(fn_.node):
+            tg_ = s_.targets if isinstance(s_, ast.Assign) else ([s_.target] if isinstance(s_, (ast.AugAssign, ast.AnnAssign)) else [])
+            if any(isinstance(t_, ast.Attribute) and t_.attr == "_counter" for t_ in tg_):
+                writers.append(fn_.qualname)
+    ok = sorted(set(writers)) == [f"{LZ}._LazyFunction.__init__"]
+    ctx.add("5-dag", f"{LZ}._LazyFunction._counter", "", ok, "the id counter is only ever incremented, in the constructor" if ok else
+            f"the id counter is also written by {sorted(set(writers) - {f'{LZ}._LazyFunction.__init__'})}: ids repeat, so a lazy object created earlier collides with a new node (self-loops / cycles in the task graph)", key="counter-writers")
     cd = P.func(f"{LZ}.construct_dag")
     tr = [t for t in walk_no_nested(cd.node) if isinstance(t, ast.Try)]
     ok = bool(tr) and any(norm(s) == "_TASK_GRAPH = None" for s in tr[0].finalbody) and any(isinstance(y, ast.Yield) for st in tr[0].body for y in ast.walk(st))
@@ -171,5 +180,6 @@ MUTANTS = [
     Mutant("edges-kwargs-only", L, "            for arg in self.args:\n                add_edge(arg)\n\n", "", ("C18.5-dag",)),
     Mutant("edge-reversed", L, "                    _TASK_GRAPH.graph.add_edge(arg._id, self._id)\n", "                    _TASK_GRAPH.graph.add_edge(self._id, arg._id)\n", ("C18.5-dag",)),
     Mutant("no-finally-reset", L, "    try:\n        yield _TASK_GRAPH\n    finally:\n        _TASK_GRAPH = None\n", "    yield _TASK_GRAPH\n    _TASK_GRAPH = None\n", ("C18.5-dag",)),
+    Mutant("counter-reset-per-graph", L, "    global _TASK_GRAPH\n    _TASK_GRAPH = TaskGraph(nx.DiGraph(), {}, SimpleCache())\n", "    global _TASK_GRAPH\n    _LazyFunction._counter = 0\n    _TASK_GRAPH = TaskGraph(nx.DiGraph(), {}, SimpleCache())\n", ("C18.5-dag",), why="seeded C18/2"),
     Mutant("twin-evaluate-inline", L, "        result = self.func(*args, **kwargs)\n        self._result = result\n", "        result = self.func(*args, **kwargs)\n        self._result = result  # memoise\n", twin=True),
 ]
